@@ -94,6 +94,31 @@ def coherent(eff, ci):
     return True, ''
 
 
+
+def _init_literals(chk, m, cls='MediaList'):
+    """{attribute: value} for every `self.X = <literal>` of the class's __init__: state a receiver model must have
+    even when no rule looks at it (a cache, a counter) - without it a harmless new attribute stops the analysis."""
+    out = {}
+    m = chk.repo.mod('cssutils/stylesheets/medialist.py')
+    init = m.get(f'{cls}.__init__')
+    for st in ast.walk(init):
+        if isinstance(st, ast.Assign) and len(st.targets) == 1 and isinstance(st.targets[0], ast.Attribute) and text(st.targets[0].value) == 'self':
+            try:
+                out[st.targets[0].attr] = ast.literal_eval(st.value)
+            except (ValueError, SyntaxError):
+                pass
+    return out
+
+
+def _with_init(chk, m, me, cls='MediaList'):
+    import copy
+
+    for k, v in _init_literals(chk, m, cls).items():
+        if k not in vars(me):
+            setattr(me, k, copy.deepcopy(v))
+    return me
+
+
 def r17a(chk, rid='R17.a'):
     chk.rule(rid, 'container protocol coherence: for every list-like DOM class whose __iter__ skips items, __len__, __getitem__, __delitem__, __setitem__, length and item (resolved through the class hierarchy) use the same filtered view - directly, through a helper that applies the filter, or by delegating to a member that does')
     eff = Effects.get(chk.repo)
@@ -348,7 +373,7 @@ def _eval_edit_media(chk, rid, m):
         for newtype, wf in news:
             logged = []
             sq = mk(kinds)
-            me = Record(_seq=sq, _checkReadonly=lambda: None, _log=Record(info=lambda *a, **k: logged.append(('info', k.get('error'))), error=lambda *a, **k: logged.append(('error', k.get('error')))))
+            me = _with_init(chk, m, Record(_seq=sq, _checkReadonly=lambda: None, _log=Record(info=lambda *a, **k: logged.append(('info', k.get('error'))), error=lambda *a, **k: logged.append(('error', k.get('error'))))))
             me._clearSeq = lambda sq=sq: sq.clear()
             new = MQ(mediaType=newtype, mediaText=f'{newtype or ""} and (monochrome)', wellformed=wf, tag='NEW')
             intr = {'normalize': lambda x: x.lower() if x else x, 'MediaQuery': MQ, 'xml': Record(dom=Record(InvalidModificationErr='InvalidModificationErr', NotFoundErr='NotFoundErr')),
@@ -376,7 +401,7 @@ def _eval_edit_media(chk, rid, m):
         for old in ('tv', 'TV', 'print', 'all', 'absent'):
             logged = []
             sq = mk(kinds)
-            me = Record(_seq=sq, _checkReadonly=lambda: None, _log=Record(error=lambda *a, **k: logged.append(k.get('error'))))
+            me = _with_init(chk, m, Record(_seq=sq, _checkReadonly=lambda: None, _log=Record(error=lambda *a, **k: logged.append(k.get('error')))))
             intr = {'normalize': lambda x: x.lower() if x else x, 'MediaQuery': MQ, 'xml': Record(dom=Record(NotFoundErr='NotFoundErr')), 'self._log.error': me._log.error}
             res = Evaluator(m.get('MediaList.deleteMedium'), intrinsics=intr, model_types=(SeqM,), module=m, cls='MediaList').run(self=me, oldMedium=old)
             n += 1
@@ -440,7 +465,7 @@ def r17f(chk, rid='R17.f'):
     for index in range(-4, 4):
         sq = Seq2([Record(type='COMMENT', value='c'), Record(type='MediaQuery', value=MQm(mediaType='tv', wellformed=True, tag='tv')), Record(type='MediaQuery', value=MQm(mediaType='print', wellformed=True, tag='print')),
                    Record(type='COMMENT', value='c2'), Record(type='MediaQuery', value=MQm(mediaType='tv', wellformed=True, tag='tv2'))])
-        me = Record(_seq=sq, _checkReadonly=lambda: None)
+        me = _with_init(chk, m, Record(_seq=sq, _checkReadonly=lambda: None))
         new = MQm(mediaType='tv', wellformed=True, tag='NEW')
         res = Evaluator(si, intrinsics={'MediaQuery': MQm}, model_types=(Seq2,), module=lm, cls='MediaList').run(self=me, index=index, newMedium=new)
         n += 1
